@@ -95,6 +95,10 @@ const librarySweep = `(function(){ var r = [];
  r.push(typeof Function("a", "return a")(1), (function(a, b){ return arguments.length }).call(null, 1, 2, 3), (function(){ return this.v }).bind({v: 4})(), (function(){}).toString().length > 5, Boolean(""), new Number(3) + 1, new String("ab").length, Number.MAX_VALUE > 1, typeof console);
  return r.join("~") })()`
 
+const sharedSuffix = `
+;(function(){ var n = 0; A: B: for (var i = 0; i < 4; i++) { C: switch (i) { case 1: continue A; case 2: break C; default: n += i } D: { if (i === 3) break D; n++ } E: do { n++; continue E } while (false); F: for (var k in {a: 1, b: 2}) { if (k === "a") continue F; n++ } }
+  function args(a, b){ arguments[0] = b; delete arguments[1]; return a + ":" + arguments.length } return n + ":" + args(1, 2) + ":" + args("x", "y") })();`
+
 var sharedPrograms = []string{
 	// the outcome of every run depends on the function declarations being instantiated anew (10.5): the name was
 	// reassigned and the function object carried state at the end of the previous run
@@ -592,7 +596,9 @@ var raceFacet = harness.Register(&harness.Facet[raceCase]{
 		for i, n := 0, rapid.IntRange(1, 3).Draw(t, "nsetup"); i < n; i++ {
 			c.Setup = append(c.Setup, heap.Piece(t, heap.Builders, "builder"))
 		}
-		c.SharedSrc = rapid.SampledFrom(sharedPrograms).Draw(t, "shared")
+		// every shared source ends with labelled loops and a labelled switch, arguments objects and a closure: what the
+		// evaluator keeps per compiled node for those (label lists, parameter maps) is then used by all sharers at once
+		c.SharedSrc = rapid.SampledFrom(sharedPrograms).Draw(t, "shared") + sharedSuffix
 		c.CopyInPara = rapid.IntRange(0, 3).Draw(t, "copypara") == 0
 		n := rapid.IntRange(2, 8).Draw(t, "nruntimes")
 		for i := 0; i < n; i++ {
